@@ -134,10 +134,14 @@ buf2args(char *buf, size_t buf_size, size_t max_args, char **args, size_t *args_
 			data_size = calc_non_sptab_count(cur_pos, cur_size);
 		}
 		args[ret] = cur_pos;
-		args_sizes[ret] = data_size;
+		if (NULL != args_sizes) {
+			args_sizes[ret] = data_size;
+		}
+		ret ++;
+		if (cur_size <= data_size) /* Arg ends at buf end: no room for zero. */
+			break;
 		(*(cur_pos + data_size)) = 0;
 		data_size ++;
-		ret ++;
 
 		/* Move to next arg. */
 		cur_size -= data_size;
